@@ -166,7 +166,13 @@ def dump(obj, depth=0):
         return [dump(i, depth + 1) for i in obj]
     from cryptoparser.common.base import ArrayBase  # pylint: disable=import-outside-toplevel
     if isinstance(obj, ArrayBase):
-        return {'class': type(obj).__name__, 'items': [dump(i, depth + 1) for i in obj]}
+        return {'class': type(obj).__name__, 'items': [dump(i, depth + 1) for i in obj],
+                'recorded_size': getattr(obj, '_items_size', None)}
+    if type(obj).__module__.startswith('asn1crypto') and hasattr(obj, 'dump'):
+        try:
+            return {'der': obj.dump().hex()}
+        except Exception as e:  # pylint: disable=broad-except
+            return {'der-error': repr(e)}
     fields = _fields_of(obj)
     if fields is not None and type(obj).__module__.split('.')[0] in ('cryptoparser', 'cryptodatahub', 'vf'):
         return {'class': type(obj).__name__, 'fields': [[n, dump(v, depth + 1)] for n, v in fields]}
